@@ -65,6 +65,7 @@ def base_model():
         "Query": {"kind": "type", "ifaces": [], "fields": {
             "a": {"type": "A", "args": {}}, "u": {"type": "U", "args": {}}, "n": {"type": "Node", "args": {}},
             "b": {"type": "B", "args": {}},
+            "w": {"type": "Int", "args": {"n": {"type": "Int!", "default": "1"}}},            # a non-null argument that clients may leave out thanks to its default
             "v": {"type": "Int", "args": {"ee": {"type": "E"}, "es": {"type": "[E!]"}, "ins": {"type": "[In!]"}}},
             "e": {"type": "E", "args": {"i": {"type": "In"}, "k": {"type": "Int", "default": "1"}, "r": {"type": "[Int!]!"}}}}},
         "A": {"kind": "type", "ifaces": ["Node"], "fields": {
@@ -76,7 +77,7 @@ def base_model():
                                                   "rel": {"type": "Node", "args": {"k": {"type": "Int", "default": "1"}, "q": {"type": "[Int!]"}}}}},
         "U": {"kind": "union", "members": ["A", "B"]},
         "E": {"kind": "enum", "values": {"X": {}, "Y": {"deprecated": "r"}, "Z": {}}},
-        "In": {"kind": "input", "fields": {"f": {"type": "Int!"}, "g": {"type": "String", "default": '"s"'}, "h": {"type": "[In!]"}}},
+        "In": {"kind": "input", "fields": {"f": {"type": "Int!"}, "g": {"type": "String", "default": '"s"'}, "h": {"type": "[In!]"}, "d": {"type": "Int!", "default": "4"}}},
         "@d": {"kind": "directive", "locations": ["FIELD", "QUERY"], "args": {"x": {"type": "Int"}, "y": {"type": "Int!", "default": "2"}}},
     }
 
@@ -148,6 +149,7 @@ CORPUS = [
     "{ a { ... on Node { id } } }", "{ n { rel { id } } }", "{ n { rel(k: 2, q: [1]) { id } } }", "{ a { rel(k: 1) { id rel { id } } } }",
     "query ($k: Int, $q: [Int!]) { n { rel(k: $k, q: $q) { id } } }", "query ($e: E = X) { v(ee: $e) }", "query ($e: [E!] = [X, Z]) { v(es: $e) }", "{ v(ee: Z, es: [X]) }",
     "query ($in: [In!]) { v(ins: $in) }", "{ __type(name: \"A\") { name } }",
+    "{ w }", "{ w(n: 2) }", "query ($n: Int! = 3) { w(n: $n) }",
 ]
 
 # (label, mutate(model) -> expected change class name, list of names the message must mention)
@@ -254,6 +256,17 @@ def _edits():
     def _(m): m["A"]["fields"]["rel"]["args"]["k"]["default"] = "5"
     @ed("impl_deprecate_id", "FieldDeprecated", ["A", "id"])
     def _(m): m["A"]["fields"]["id"]["deprecated"] = "why"
+    # (appended) a NON-NULL input position loses / changes / (re)gains its default: without it the position is required
+    @ed("nn_arg_default_removed", "FieldArgumentDefaultValueChange", ["Query", "w", "n"])
+    def _(m): m["Query"]["fields"]["w"]["args"]["n"]["default"] = None
+    @ed("nn_arg_default_changed", "FieldArgumentDefaultValueChange", ["Query", "w", "n"])
+    def _(m): m["Query"]["fields"]["w"]["args"]["n"]["default"] = "9"
+    @ed("nn_input_default_removed", "InputFieldDefaultValueChange", ["In", "d"])
+    def _(m): m["In"]["fields"]["d"]["default"] = None
+    @ed("nn_dir_arg_default_removed", "DirectiveArgumentDefaultValueChange", ["d", "y"])
+    def _(m): m["@d"]["args"]["y"]["default"] = None
+    @ed("nn_input_default_added", "InputFieldDefaultValueChange", ["In", "f"])
+    def _(m): m["In"]["fields"]["f"]["default"] = "0"
     return E
 
 
@@ -531,6 +544,59 @@ def _retype(site: int, w: int, other: bool, order: int, dflt: int = 0) -> bool:
     return result(ok, True)
 
 
+# ---- two positions retyped in ONE diff: independent edits compose (the verdict for a position does not depend on what else changed, nor on which is visited first)
+COMPOSE_SITES = (
+    ("field", "B", "b"), ("field", "Query", "v"), ("field", "A", "x"), ("field", "A", "old"),
+    ("arg", "Query", "e", "k"), ("arg", "Query", "e", "r"), ("dirarg", "d", "x"), ("dirarg", "d", "y"), ("input", "In", "f"),
+)
+
+
+def _compose_slot(m, s):
+    if s[0] == "field":
+        return m[s[1]]["fields"][s[2]]
+    if s[0] == "arg":
+        return m[s[1]]["fields"][s[2]]["args"][s[3]]
+    if s[0] == "input":
+        return m[s[1]]["fields"][s[2]]
+    return m["@" + s[1]]["args"][s[2]]
+
+
+def _retype_compose(s1: int, s2: int, ow: int, nw: int, order: int) -> bool:
+    """
+    pre: 0 <= s1 < s2 and s2 < len(COMPOSE_SITES) and 0 <= ow < len(RETYPE_WRAPS) and 0 <= nw < len(RETYPE_WRAPS) and ow != nw and 0 <= order <= 1
+    pre: shard_of(s1 * 3 + s2 + ow)
+    post: _
+    """
+    A1, A2 = pick(s1, COMPOSE_SITES), pick(s2, COMPOSE_SITES)
+    OW, NW = pick(ow, RETYPE_WRAPS), pick(nw, RETYPE_WRAPS)
+    o = pick(order, ORDERS)
+    with untraced():
+        old_t, new_t = join_type(OW, "Int"), join_type(NW, "Int")
+        m_old = base_model()
+        for s in (A1, A2):
+            _compose_slot(m_old, s)["type"] = old_t
+            _compose_slot(m_old, s)["default"] = None
+        m1, m2, m12 = copy.deepcopy(m_old), copy.deepcopy(m_old), copy.deepcopy(m_old)
+        _compose_slot(m1, A1)["type"] = new_t
+        _compose_slot(m2, A2)["type"] = new_t
+        _compose_slot(m12, A1)["type"] = new_t
+        _compose_slot(m12, A2)["type"] = new_t
+        try:
+            for m in (m_old, m1, m2, m12):
+                build_schema(render(m)).validate()
+        except Exception:
+            return result(True, False)
+        new_order = list(reversed(m_old["order"])) if o else None
+        _, _, c1 = changes_of(render(m_old), render(m1, new_order))
+        _, _, c2 = changes_of(render(m_old), render(m2, new_order))
+        _, _, c12 = changes_of(render(m_old), render(m12, new_order))
+        ok = c12 == sorted(c1 + c2)
+        if ok:
+            # soundness on the client corpus for the combined edit as well
+            ok = check_pair(m_old, m12, None, [], o)
+    return result(ok, bool(c1) != bool(c2))
+
+
 # ---- code-built enums: the GraphQL-visible NAME is what clients see; the internal Python value is not part of the contract
 ENUM_BASE = (("RED", 1, None), ("GREEN", "g", None), ("BLUE", (0, 0, 255), "old"))
 ENUM_EDITS = (
@@ -576,6 +642,15 @@ def _enum_internal(e: int, flip: bool) -> bool:
 
 
 CONDITIONS = [
+    Cond(
+        name="retype_compose", fn=_retype_compose, quick=90, thorough=300, per_path=60, shards_quick=16, shards_thorough=16,
+        bound="TWO positions retyped in one diff with the same old and new type text: every pair of %d sites (4 output fields, 2 field arguments, 2 directive arguments, an input field) x every ordered pair of %d wrapper shapes over Int "
+              "x 2 definition orders: the changes reported for the combined edit are exactly the changes reported for each edit alone (so the verdict for a position depends neither on what else changed nor on visiting order), "
+              "and the combined edit is sound on the client corpus" % (len(COMPOSE_SITES), len(RETYPE_WRAPS)),
+        symbolic={"s1,s2": "choice: the two sites", "ow,nw": "choice: old / new wrappers", "order": "choice: definition order of the new schema"},
+        assumptions=["metamorphic: the single-site verdicts themselves are decided against the variance oracle by `retype` / `type_change`"],
+        witness={"s1": 0, "s2": 4, "ow": 1, "nw": 0, "order": 0},
+    ),
     Cond(
         name="type_change", fn=_type_change, quick=100, thorough=200, per_path=30,
         bound="old and new type: every wrapper list of <= 4 wrappers (19 x 19) over the same or a different named type, input and output predicate: real 'safe' implies the variance oracle",
